@@ -31,10 +31,12 @@ type recField struct {
 	goName  string
 	coqName string
 	kind    string // "int", "val", "bool", "optslice" (option (list T): nil-able slice), "slice", "skip", "state"
+	def     string // value in a composite literal that does not mention the field ("" = 0 / false)
 }
 
 type recSpec struct {
 	ctor   string
+	goType string // Go struct name (for composite literals)
 	fields []recField
 }
 
@@ -71,6 +73,9 @@ type impPkg struct {
 	fns     []impFn
 	// calls of plain identifiers / selectors that are total and pure: printed callee -> Coq function
 	pureCalls map[string]string
+	// calls of a function-valued field that acts on state the record carries (a callback closing over its own
+	// state): printed callee -> (record field holding that state, Coq function : args -> state -> state)
+	effectCalls map[string][2]string
 }
 
 type bindT struct{ pat, rhs string }
@@ -276,6 +281,51 @@ func (t *impT) expr(e ast.Expr) string {
 		return t.hoist("s", "(goslice "+s+" "+lo+" "+hi+")")
 	case *ast.CallExpr:
 		return t.call(x, true)
+	case *ast.CompositeLit:
+		// Heap[T]{a: initial, ...}: a record of the package; fields outside the model are dropped
+		tyName := goText(x.Type)
+		if i := strings.Index(tyName, "["); i >= 0 {
+			tyName = tyName[:i]
+		}
+		for _, r := range t.pkg.recs {
+			if r.goType != tyName {
+				continue
+			}
+			given := map[string]string{}
+			for _, el := range x.Elts {
+				kv, ok := el.(*ast.KeyValueExpr)
+				if !ok {
+					return t.fail(e, "positional composite literal")
+				}
+				k := kv.Key.(*ast.Ident).Name
+				f := r.field(k)
+				if f == nil {
+					return t.fail(e, "unknown field in composite literal")
+				}
+				if f.kind != "skip" {
+					given[k] = t.rhs(kv.Value)
+				}
+			}
+			parts := []string{r.ctor}
+			for _, f := range r.fields {
+				if f.kind == "skip" {
+					continue
+				}
+				if v, ok := given[f.goName]; ok {
+					if f.kind == "optslice" {
+						v = "(Some " + v + ")"
+					}
+					parts = append(parts, v)
+				} else if f.def != "" {
+					parts = append(parts, f.def)
+				} else if f.kind == "bool" {
+					parts = append(parts, "false")
+				} else {
+					parts = append(parts, "0")
+				}
+			}
+			return "(" + strings.Join(parts, " ") + ")"
+		}
 	}
 	return t.fail(e, "expression")
 }
@@ -297,6 +347,32 @@ func (t *impT) call(c *ast.CallExpr, value bool) string {
 			}
 			return t.fail(c, "make")
 		}
+	}
+	if ec, ok := t.pkg.effectCalls[callee]; ok {
+		// h.indexChanged(x, i): the callback updates the state it closes over, carried in a record field
+		if sel, ok := c.Fun.(*ast.SelectorExpr); ok {
+			if v, r := t.recOf(sel.X); r != nil && v == t.recvN && t.fn.mut {
+				var f *recField
+				for i := range r.fields {
+					if r.fields[i].coqName == ec[0] {
+						f = &r.fields[i]
+					}
+				}
+				if f != nil {
+					parts := []string{ec[1]}
+					for _, a := range c.Args {
+						parts = append(parts, t.expr(a))
+					}
+					parts = append(parts, "("+f.coqName+" "+v+")")
+					if t.safeOnly > 0 {
+						t.unsafeHoist = true
+					}
+					t.pre = append(t.pre, bindT{v, "(Ok " + t.setField(v, r, f, "("+strings.Join(parts, " ")+")") + ")"})
+					return "tt"
+				}
+			}
+		}
+		return t.fail(c, "effect call")
 	}
 	if f, ok := t.pkg.pureCalls[callee]; ok {
 		parts := []string{f}
@@ -667,8 +743,16 @@ func (t *impT) stmts(l []ast.Stmt, k kont) string {
 			// all right-hand sides first (Go evaluates index operands and the RHS before assigning)
 			vals := []string{}
 			for _, r := range s.Rhs {
-				// x := append(s, e) / s = append(s, e...)
 				vals = append(vals, t.rhs(r))
+			}
+			temps := []bindT{}
+			if len(s.Lhs) > 1 {
+				// parallel assignment: every value is named before the first write
+				for i := range vals {
+					tmp := t.newVar("p")
+					temps = append(temps, bindT{tmp, vals[i]})
+					vals[i] = tmp
+				}
 			}
 			ws := []func(string) string{}
 			for i, lh := range s.Lhs {
@@ -679,23 +763,23 @@ func (t *impT) stmts(l []ast.Stmt, k kont) string {
 			for i := len(ws) - 1; i >= 0; i-- {
 				body = ws[i](body)
 			}
-			if len(s.Lhs) > 1 {
-				// parallel assignment: the values were all read before the first write because partial reads are
-				// hoisted; plain identifiers on the right are protected by renaming
-				for i, r := range s.Rhs {
-					if id, ok := r.(*ast.Ident); ok {
-						tmp := t.newVar("p")
-						body = strings.Replace(body, "", "", 0)
-						vals[i] = tmp
-						_ = id
-					}
-				}
+			for i := len(temps) - 1; i >= 0; i-- {
+				body = "let " + temps[i].pat + " := " + temps[i].rhs + " in\n  " + body
 			}
 			return wrapPre(pre, body)
 		}
 		if len(s.Lhs) == 2 && len(s.Rhs) == 1 {
-			// a, b := f(x) for pure pair-valued calls
+			// a, b := f(x) for pair-valued calls
 			if c, ok := s.Rhs[0].(*ast.CallExpr); ok {
+				if _, pure := t.pkg.pureCalls[goText(c.Fun)]; !pure {
+					a, aok := s.Lhs[0].(*ast.Ident)
+					b, bok := s.Lhs[1].(*ast.Ident)
+					if aok && bok {
+						v := t.call(c, true)
+						pre := t.takePre()
+						return wrapPre(pre, "let '("+a.Name+", "+b.Name+") := "+v+" in\n  "+rest())
+					}
+				}
 				if f, ok := t.pkg.pureCalls[goText(c.Fun)]; ok {
 					parts := []string{f}
 					for _, a := range c.Args {
@@ -951,6 +1035,7 @@ func translateImp(pkg *impPkg, parse func(rel string) *ast.File) (string, error)
 		if fd == nil {
 			return "", fmt.Errorf("function %s.%s not found in %s", sp.recv, sp.name, sp.file)
 		}
+		renameReserved(fd)
 		t := &impT{pkg: pkg, fn: sp, byKey: byKey}
 		if fd.Recv != nil && len(fd.Recv.List) > 0 && len(fd.Recv.List[0].Names) > 0 {
 			t.recvN = fd.Recv.List[0].Names[0].Name
@@ -999,4 +1084,29 @@ func translateImp(pkg *impPkg, parse func(rel string) *ast.File) (string, error)
 	}
 	out.WriteString("End Imp.\n")
 	return out.String(), nil
+}
+
+// Go identifiers that are constructors or keywords on the Coq side get a suffix (local variables and parameters
+// only: selectors and composite-literal keys are left alone).
+var coqReserved = map[string]bool{"left": true, "right": true, "end": true, "fix": true, "fun": true, "at": true, "in": true,
+	"as": true, "then": true, "with": true, "match": true, "let": true, "forall": true, "exists": true, "nil": false,
+	"cons": true, "pair": true, "fst": true, "snd": true, "S": true, "O": true, "Some": true, "None": true, "Ok": true, "Panic": true}
+
+func renameReserved(fd *ast.FuncDecl) {
+	skip := map[*ast.Ident]bool{}
+	ast.Inspect(fd, func(n ast.Node) bool {
+		switch x := n.(type) {
+		case *ast.SelectorExpr:
+			skip[x.Sel] = true
+		case *ast.KeyValueExpr:
+			if id, ok := x.Key.(*ast.Ident); ok {
+				skip[id] = true
+			}
+		case *ast.Ident:
+			if coqReserved[x.Name] && !skip[x] {
+				x.Name = x.Name + "_v"
+			}
+		}
+		return true
+	})
 }
